@@ -14,30 +14,42 @@
 EXTENDS SuffixIndex
 CONSTANTS Sym, MaxN, T
 
-VARIABLES bwt, k, phase, st, q
-vars == <<bwt, k, phase, st, q>>
+VARIABLES bwt, k, phase, st, q, txt
+vars == <<bwt, k, phase, st, q, txt>>
 
 Strings(lo, hi) == UNION {[1..n -> Sym] : n \in lo..hi}
 N == Len(bwt)
 NoQuery == [r |-> -1, c |-> -1, br |-> "none", val |-> -1]
 
-Init ==
+Sent == SetMin(Sym)
+SingleTexts == {b \o <<Sent>> : b \in UNION {[1..n -> Sym \ {Sent}] : n \in 0..(MaxN - 1)}}
+
+InitOcc ==
     /\ bwt \in Strings(1, MaxN)
     /\ k \in 1..(2 * MaxN)
     /\ k <= 2 * Len(bwt)
     /\ phase = "build"
     /\ st = OccNewInit(Sym)
     /\ q = NoQuery
+    /\ txt = << >>
+\* invert_bwt on the BWT of every single-sentinel text: bwtfind loop, then the walk
+InitInv ==
+    /\ txt \in SingleTexts
+    /\ bwt = Eager(BwtDef(txt, SortedSA(txt)))
+    /\ k = 1 /\ q = NoQuery
+    /\ phase = "find"
+    /\ st = BwtFindInit(bwt)
+Init == InitOcc \/ InitInv
 
 BuildStep ==
     /\ phase = "build" /\ st.i < N
     /\ st' = OccNewStep(st, bwt, k, Sym)
-    /\ UNCHANGED <<bwt, k, phase, q>>
+    /\ UNCHANGED <<bwt, k, phase, q, txt>>
 
 BuildDone ==
     /\ phase = "build" /\ st.i = N
     /\ phase' = "ready"
-    /\ UNCHANGED <<bwt, k, st, q>>
+    /\ UNCHANGED <<bwt, k, st, q, txt>>
 
 Answer(branch) ==
     /\ \E r \in 0..(N - 1), c \in Sym :
@@ -45,13 +57,27 @@ Answer(branch) ==
           IN  /\ g[1] = branch
               /\ q' = [r |-> r, c |-> c, br |-> branch, val |-> g[2]]
     /\ phase' = "answered"
-    /\ UNCHANGED <<bwt, k, st>>
+    /\ UNCHANGED <<bwt, k, st, txt>>
 
 GetEarly == phase = "ready" /\ Answer("early")      \* lo_occ == hi_occ
 GetBack  == phase = "ready" /\ Answer("back")       \* hi_occ - count(bwt[r+1..=hi_idx])
 GetFwd   == phase = "ready" /\ Answer("fwd")        \* count(bwt[lo_idx+1..=r]) + lo_occ
 
-Next == BuildStep \/ BuildDone \/ GetEarly \/ GetBack \/ GetFwd
+FindStep ==
+    /\ phase = "find" /\ st.r < N
+    /\ st' = BwtFindStep(st, bwt)
+    /\ UNCHANGED <<bwt, k, phase, q, txt>>
+FindDone ==
+    /\ phase = "find" /\ st.r = N
+    /\ st' = [bf |-> st.bf, w |-> InvInit(st.bf)]
+    /\ phase' = "walk"
+    /\ UNCHANGED <<bwt, k, q, txt>>
+WalkStep ==
+    /\ phase = "walk" /\ Len(st.w.out) < N
+    /\ st' = [st EXCEPT !.w = InvStep(st.w, bwt, st.bf)]
+    /\ UNCHANGED <<bwt, k, phase, q, txt>>
+
+Next == BuildStep \/ BuildDone \/ GetEarly \/ GetBack \/ GetFwd \/ FindStep \/ FindDone \/ WalkStep
 Spec == Init /\ [][Next]_vars
 
 \* ------------------------------------------------------------ invariants
@@ -63,7 +89,7 @@ BuildInv ==
             /\ Len(st.cps[c]) = (IF st.i = 0 THEN 0 ELSE (st.i - 1) \div k + 1)
             /\ \A j \in 1..Len(st.cps[c]) : st.cps[c][j] = OccDef(bwt, (j - 1) * k, c)
 \* the finished table is the definition's table
-TableExact == phase # "build" => \A c \in Sym : st.cps[c] = CheckpointsDef(bwt, k, Sym)[c]
+TableExact == phase \in {"ready", "answered"} => \A c \in Sym : st.cps[c] = CheckpointsDef(bwt, k, Sym)[c]
 \* every answer of every branch is the exact count
 GetExact == phase = "answered" => q.val = OccDef(bwt, q.r, q.c)
 \* ... and, independent of the action split, for all rows and symbols at once
@@ -74,6 +100,19 @@ BranchShape ==
     phase = "answered" =>
         /\ q.br \in {"early", "back"} => k > T /\ (q.r \div k + 1) * k <= N - 1     \* next checkpoint exists
         /\ q.br = "back" => (q.r \div k + 1) * k - q.r < k \div 2
+\* bwtfind is the stable counting sort of the BWT: the j-th occurrence of c goes to slot less(c) + j
+FindInv ==
+    phase = "find" =>
+        \A c \in Range(bwt) :
+            /\ st.less[c] = LessDef(bwt, c) + (IF st.r = 0 THEN 0 ELSE OccDef(bwt, st.r - 1, c))
+            /\ \A r \in 0..(st.r - 1) : bwt[r + 1] = c => st.bf[LessDef(bwt, c) + OccDef(bwt, r, c)] = r
+\* the walk spells the text from the left; it ends with the whole text
+WalkInv == phase = "walk" => st.w.out = SubSeq(txt, 1, Len(st.w.out))
+\* bwtfind is the inverse LF mapping: slot j holds the row whose suffix is one symbol shorter
+FindIsPsi ==
+    phase = "walk" =>
+        LET sa == SortedSA(txt) IN
+        \A j \in 1..N : sa[st.bf[j] + 1] = (IF sa[j] = N - 1 THEN 0 ELSE sa[j] + 1)
 \* the build loop advances and terminates after exactly n steps
 Progress == [][(phase = "build" /\ phase' = "build") => st'.i = st.i + 1]_vars
 =============================================================================
